@@ -160,7 +160,8 @@ Definition csum_kept_ok (inp : list buf) (tw : list N) (out : list buf) : bool :
   perm_eqb (map canonv (segments tw out)) (map (fun b => canonv (b_pkt b)) inp).
 
 (* [holdsb] is the conjunction of the six clauses (Gro.Holds.holdsb_clauses); it is written with the
-   kernel's segments computed once, because it is evaluated on every generated batch. *)
+   kernel's segments computed once and with clause 3 left to clause 6, which implies it, because it is
+   evaluated on every generated batch. *)
 Definition udp_order_segs (keep : list N -> bool) (inp : list buf) (segs0 : list (list N)) : bool :=
   let ins := filter keep (map b_pkt inp) in
   let segs := filter keep segs0 in
@@ -178,7 +179,6 @@ Definition holdsb (inp : list buf) (tw : list N) (out : list buf) : bool :=
   let segs := concat sl in
   (nodupb tw && forallb (fun i => i <? len (map b_cap inp)) tw && (length segs =? length inp)%nat)
   && passthrough_ok inp tw out
-  && perm_eqb (map canon segs) (map (fun b => canon (b_pkt b)) inp)
   && udp_order_segs (fun _ => true) inp segs
   && (forallb descriptor_ok (filter is_gso wr) && forallb lengths_ok (filter is_gso wr) && csums_ok2 wr sl)
   && perm_eqb (map canonv segs) (map (fun b => canonv (b_pkt b)) inp).
